@@ -342,7 +342,11 @@ def run(ctx, R, tier):
     from ..report import Rules as _Rules
     from . import c16 as _c16
     R16 = _Rules("C16")
-    _c16.run(ctx, R16, tier)
+    try:
+        _c16.run(ctx, R16, tier)
+    except AnalysisError as _shared_x:
+        # the other property's own anchors are gone on this tree: its check reports that; what it produced before is still shared
+        R.note("obligations shared from C16 are incomplete on this tree: %s" % _shared_x)
     shared = [o for o in R16.obs if o.rule == "C16-R6" and o.key.split("|")[1] == "Daemon.resetMetadataCache"]
     if not shared:
         R.note("C16-R6 produced no instance for Daemon.resetMetadataCache on this tree (C16 reports why); nothing shared")
